@@ -6,7 +6,7 @@ import sys
 import pyfacts
 
 
-def measure():
+def measure(strict=True):
     g = sys.getsizeof
     tup, lst = g(()), g([])
     ptr = g((0,)) - tup
@@ -31,7 +31,17 @@ def measure():
         assert g('a\U00010000' * k) == u4 + 8 * k
     assert g('\x7f') == asc + 1 and g('\x80' * 2) == lat + 2 and g('Ā') == u2 + 2 and g('\U00010000') == u4 + 4
     assert g('a' * 0) == asc and g('\xe9' * 0) == asc
-    return dict(tupleHdr=tup, listHdr=lst, ptr=ptr, strAscii=asc, strLatin1=lat, strUcs2=u2, strUcs4=u4)
+    # utils.FrozenDict.__sizeof__ (since /repo ccc0ee2): the wrapper plus the dict it owns
+    from yaql.language import utils as yutils
+    fd_over = g(yutils.FrozenDict({})) - g({})
+    for n in (0, 1, 5, 6, 11, 22, 100, 1000):
+        d = dict.fromkeys(range(n))
+        if strict:
+            assert g(yutils.FrozenDict(d)) == fd_over + g(d), ('FrozenDict does not report the dict it wraps', n)
+    if strict:
+        assert fd_over > 0
+    return dict(tupleHdr=tup, listHdr=lst, ptr=ptr, strAscii=asc, strLatin1=lat, strUcs2=u2, strUcs4=u4,
+                fdictOverhead=max(fd_over, 0))
 
 
 @pyfacts.generator('Sizes')
